@@ -117,7 +117,12 @@ class SharedBufferAPI : public BufferAPI<ArrayT>
      { return !_orig.writable(); }
 
     void *buffer() override
-     { return static_cast<void *> (&_orig.direct_index(0)); }
+    {
+        //  const access: the non-const direct_index() throws for read-only
+        // arrays, and an exception must not leave the getbuffer C slot.
+        const ArrayT &orig = _orig;
+        return const_cast<void *> (static_cast<const void *> (&orig.direct_index(0)));
+    }
 
   private:
 
@@ -263,12 +268,17 @@ getbuffer (PyObject *obj, Py_buffer *view, int flags)
         return -1;
     }
 
-    BufferAPI<ArrayT> *api   = nullptr;
     bool writableBuffer = ((flags & PyBUF_WRITABLE) == PyBUF_WRITABLE);
     if (writableBuffer && !array.writable())
-        api = new CopyBufferAPI<ArrayT> (array);  
-    else
-        api = new SharedBufferAPI<ArrayT> (array);  
+    {
+        //  (CopyBufferAPI shares the read-only storage rather than copying
+        // it, and its buffer() throws through this C function.)
+        PyErr_SetString (PyExc_BufferError, "FixedArray is read-only, a writable buffer cannot be provided");
+        view->obj = nullptr;
+        return -1;
+    }
+
+    BufferAPI<ArrayT> *api = new SharedBufferAPI<ArrayT> (array);
 
     view->internal   = api;
     view->buf        = api->buffer();
